@@ -157,6 +157,19 @@ def build_mask(H, W, spec, wrap):
             m[r0 : r0 + h, :] = False
         for r, c in spec.get("holes", []):
             m[r % H, c % W] = False
+    elif t == "corner":
+        # corner-centred (FFT layout) disc / square of "radius" rad around index (0, 0), optionally
+        # intersected with a copy shifted by `shift` (the overlap lune of two bright-field discs)
+        r = spec["rad"]
+
+        def S(r0, c0):
+            if spec["shape"] == "disc":
+                return _shape_mask(H, W, ["disc", r0 % H, c0 % W, r], True)
+            return _shape_mask(H, W, ["rect", (r0 - r) % H, (c0 - r) % W, min(H, 2 * r + 1), min(W, 2 * r + 1)], True)
+
+        m = S(0, 0)
+        if spec.get("shift"):
+            m = m & S(spec["shift"][0], spec["shift"][1])
     elif t == "bits":
         m = np.zeros((H, W), dtype=bool)
         for i, row in enumerate(spec["rows"][:H]):
@@ -179,6 +192,14 @@ def build_mask(H, W, spec, wrap):
 # smooth fields from recipes
 # ------------------------------------------------------------------------------------------------
 def _term(H, W, t):
+    """One field term.  With t['corner'] the term is laid out corner-centred (FFT layout, as the
+    bright-field grids of DirectPtychography are): it is smooth across the periodic seam between
+    index -1 and index 0 and has its discontinuity at the Nyquist row/column instead."""
+    g = _term_plain(H, W, t)
+    return np.fft.ifftshift(g) if t.get("corner") else g
+
+
+def _term_plain(H, W, t):
     y, x = np.meshgrid(np.arange(H, dtype=np.float64), np.arange(W, dtype=np.float64), indexing="ij")
     k = t["t"]
     if k == "ramp":
@@ -254,9 +275,23 @@ def build_field(H, W, spec, a, b, inm):
         d2 = max_edge_diff(f, a, b)
         if d2 > target:
             f = f * (target / d2) * (1 - 1e-12)
+        # optional "gentle field": total in-mask range limited (scaling down keeps the steps legal)
+        mr = spec.get("max_range")
+        if mr is not None:
+            rng_in = float(np.ptp(f[inm]))
+            if rng_in > mr:
+                f = f * (mr / rng_in)
         f = np.where(inm, f, np.clip(f, -MAX_ABS_PHASE, MAX_ABS_PHASE))
     else:
         f = np.zeros((H, W))
+    pin = spec.get("pin")
+    if pin is not None:
+        # the piston is chosen so that the wrap level (2n+1)*pi lies between two chosen neighbouring
+        # pixels a and b, a fraction t of the way from a to b: a wrap contour passes exactly there
+        (ra, ca), (rb, cb) = pin["a"], pin["b"]
+        fa, fb = float(f[ra % H, ca % W]), float(f[rb % H, cb % W])
+        level = (2 * pin["n"] + 1) * math.pi
+        return f + (level - ((1 - pin["t"]) * fa + pin["t"] * fb))
     return f + spec["offset"]
 
 
